@@ -81,9 +81,30 @@ fn program(input: &Stmt) -> Prog {
     }
 }
 
-fn judge(input: &Stmt, replies: &[String], ctx: &mut Ctx) {
+/// the same loop with the INPUT inside a subroutine (the redo must find its way back with a GOSUB frame below it)
+fn program_in_subroutine(input: &Stmt) -> Prog {
     let p = program(input);
-    let desc = format!("{} ; replies {:?}", p.lines[1].render(), replies);
+    let show = p.lines[2].stmts[0].clone();
+    Prog {
+        lines: vec![
+            Line { num: 10, stmts: vec![Stmt::For("K".into(), int(1), int(2), None), Stmt::Gosub(100), Stmt::Next(vec![]), Stmt::Print(vec![PItem::E(strlit("done"))]), Stmt::End] },
+            Line { num: 100, stmts: vec![input.clone()] },
+            Line { num: 110, stmts: vec![show, Stmt::Return] },
+        ],
+    }
+}
+
+fn judge(input: &Stmt, replies: &[String], ctx: &mut Ctx) {
+    judge_prog(&program(input), replies, ctx)
+}
+
+fn judge_sub(input: &Stmt, replies: &[String], ctx: &mut Ctx) {
+    judge_prog(&program_in_subroutine(input), replies, ctx)
+}
+
+fn judge_prog(p: &Prog, replies: &[String], ctx: &mut Ctx) {
+    let p = p.clone();
+    let desc = format!("{} ; replies {:?}", p.render().join(" / "), replies.iter().map(|r| if r.len() > 60 { format!("{}... ({} bytes)", r.chars().take(20).collect::<String>(), r.len()) } else { r.clone() }).collect::<Vec<_>>());
     if !ctx.begin(&desc) {
         return;
     }
@@ -155,8 +176,16 @@ impl Sweep for Replies {
             // the empty reply, the good reply alone, and over-long replies
             judge(input, &[String::new(), good.clone(), good.clone()], ctx);
             judge(input, &[good.clone(), good.clone()], ctx);
-            for long in ["x".repeat(1025), "1".repeat(1025), format!("{},{}", "x".repeat(600), "1".repeat(600)), "9".repeat(300)] {
-                judge(input, &[long, good.clone(), good.clone()], ctx);
+            // (the limit is 1024 bytes, not characters)
+            for long in ["x".repeat(1025), "1".repeat(1025), format!("{},{}", "x".repeat(600), "1".repeat(600)), "9".repeat(300), "é".repeat(600), "日".repeat(400), format!("{}5", "\u{3000}".repeat(400)), format!("\"{}\",\"{}\",\"{}\"", "é".repeat(200), "é".repeat(200), "é".repeat(200))] {
+                judge(input, &[long.clone(), good.clone(), good.clone()], ctx);
+                judge_sub(input, &[long, good.clone(), good.clone()], ctx);
+            }
+            judge_sub(input, &[String::new(), good.clone(), good.clone()], ctx);
+            judge_sub(input, &[good.clone(), good.clone()], ctx);
+            for r in ["x,2", "70000,\"a,b\",5", "1,x", "x", "1,2,3", "40000", "5,ok", "\"a,b\",5", ",", "5,,6", "&HD", "1E39,1"] {
+                judge_sub(input, &[r.to_string(), good.clone(), good.clone()], ctx);
+                judge_sub(input, &[r.to_string(), r.to_string(), good.clone(), good.clone()], ctx);
             }
             for r in ["\"a,b\",5", "\"a,b\"", " 5 , ok ", "5,\"ok\"", "\"ok\",5", "5,ok,6,7", "5,,6", ",,", "1E2,ok", "1D2", "&H1F", "&17", "&h1f", "&HD", "&H1D", "&hdd", "&H7FFF", "&HABCD", "&H8000", "&77777", "&100000", "1e2", "-5", "+5", "5!", "5#", "5%", "NAN", "inf", "&-1", "&H-F", "1 2", "\"", "\"\"", "5,\"a", "40000", "-40000", "1E39", "1D309", " ", "x\"y"] {
                 judge(input, &[r.to_string(), good.clone(), good.clone()], ctx);
@@ -172,6 +201,9 @@ impl Sweep for Replies {
                     x /= ALPHA.len();
                 }
                 // the enumerated reply, then good replies for the retry and the second pass
+                if len <= 2 {
+                    judge_sub(input, &[s.clone(), good.clone(), good.clone()], ctx);
+                }
                 judge(input, &[s, good.clone(), good.clone()], ctx);
                 if ctx.done() {
                     return;
